@@ -63,6 +63,158 @@ def fits(b, dtype):
     return True
 
 
+
+def survives(fn, limit=60.0):
+    """crash isolation: run `fn` (the call into the code under test + the reads that follow) in a FORKED child first.
+    Returns None when the child came back, else the text of what killed it (signal / hang).  A failed C++ assertion,
+    a segfault or an endless loop in the extension is then a clean finding of this case (kind 'crash', with the
+    self-contained repro of the case) and the harness goes on, instead of the whole harness dying with the case."""
+    import os, sys, time, signal
+    sys.stdout.flush(); sys.stderr.flush()
+    pid = os.fork()
+    if pid == 0:
+        try:
+            try:
+                os.dup2(os.open(os.devnull, os.O_WRONLY), 2)
+            except OSError:
+                pass
+            with warnings.catch_warnings():
+                warnings.simplefilter('ignore')
+                fn()
+        except BaseException:  # noqa  a Python exception is judged by the in-process call
+            pass
+        finally:
+            os._exit(0)
+    t0 = time.time()
+    while True:
+        got, st = os.waitpid(pid, os.WNOHANG)
+        if got:
+            break
+        if time.time() - t0 > limit:
+            os.kill(pid, signal.SIGKILL); os.waitpid(pid, 0)
+            return f'did not return within {limit:.0f} s (killed)'
+        time.sleep(0.0002 if time.time() - t0 < 0.05 else 0.005)
+    if os.WIFSIGNALED(st):
+        sig = os.WTERMSIG(st)
+        return f'interpreter killed by signal {sig} ({signal.Signals(sig).name}: abort / failed assertion / segfault in the extension)'
+    return None
+
+
+_NET = dict(depth=0, probed=False, in_child=False, always=True, crashes=0, count={})
+
+
+def _probe_due(site):
+    """quick tier: every call is probed.  Thorough tier (a fork costs 5-10 ms, ~65 000 calls): the first 400 calls of a site,
+    then every fifth -- and EVERY call again as soon as one crash was seen anywhere (a crashing change crashes often; a call
+    that dies unprobed is still reported, by harness/main.py, as a dead harness with the last case)"""
+    if _NET['always'] or _NET['crashes']:
+        return True
+    n = _NET['count'][site] = _NET['count'].get(site, 0) + 1
+    return n <= 400 or n % 5 == 0
+
+
+class CrashInChild(Exception):
+    """raised by the safety net INSTEAD of a call that did not survive in a forked child"""
+    def __init__(self, site, what, repro):
+        super().__init__(f'{site}: {what}'); self.site = site; self.what = what; self.repro = repro
+
+
+def crashed(ctx, site, input_class, what, src, fn):
+    """True (and a 'crash' finding with repro) when the call does not survive in a child"""
+    if not _probe_due(site):
+        _NET['probed'] = True   # sampled out: the in-process call that follows is not probed by the safety net either
+        return False
+    _NET['depth'] += 1        # the child performs the call directly (no nested probe)
+    try:
+        died = survives(fn)
+    finally:
+        _NET['depth'] -= 1
+    if died is None:
+        _NET['probed'] = True   # the in-process call that follows was just probed
+        return False
+    _NET['crashes'] += 1
+    ctx.tick('crash isolated in a child: ' + site)
+    ctx.fail('crash', site, input_class, f'{what}: {died}', repro=src)
+    return True
+
+
+def _rebuild_src(obj):
+    """source text that rebuilds a BQM / DQM with the same variable order and coefficients (for the repro of the safety net)"""
+    if isinstance(obj, BQM):
+        lin = {v: float(obj.get_linear(v)) for v in obj.variables}
+        quad = {(u, v): float(q) for u, v, q in obj.iter_quadratic()}
+        dt = 'object' if obj.dtype == np.dtype(object) else f'np.{np.dtype(obj.dtype).name}'
+        return f'obj = BQM({lin!r}, {quad!r}, {float(obj.offset)!r}, {obj.vartype.name!r}, dtype={dt})\n'
+    if isinstance(obj, DQM):
+        out = ['obj = DQM()']
+        for v in obj.variables:
+            out.append(f'obj.add_variable({obj.num_cases(v)}, {v!r}); obj.set_linear({v!r}, {[float(x) for x in obj.get_linear(v)]!r})')
+        for u, v in itertools.combinations(list(obj.variables), 2):
+            q = obj.get_quadratic(u, v)
+            if q:
+                out.append(f'obj.set_quadratic({u!r}, {v!r}, {dict((k, float(a)) for k, a in q.items())!r})')
+        return '\n'.join(out) + '\n'
+    return None
+
+
+def install_safety_net():
+    """every public conversion entry point is first tried in a forked child (outermost call only; skipped when the call site
+    has just probed the same call itself): a call that kills the interpreter raises `CrashInChild` in the harness instead."""
+    import collections.abc
+    import functools
+
+    def wrap(owner, name, site):
+        orig = getattr(owner, name)
+        if getattr(orig, '_c16_net', False):
+            return
+
+        @functools.wraps(orig)
+        def w(*a, **kw):
+            if _NET['depth'] > 0:
+                return orig(*a, **kw)
+            if _NET['probed']:
+                _NET['probed'] = False
+                _NET['depth'] += 1
+                try:
+                    return orig(*a, **kw)
+                finally:
+                    _NET['depth'] -= 1
+            a = tuple(list(x) if isinstance(x, collections.abc.Iterator) else x for x in a)
+            _NET['depth'] += 1
+            try:
+                died = survives(lambda: orig(*a, **kw)) if _probe_due('net:' + site) else None
+                if died is not None:
+                    _NET['crashes'] += 1
+                    src = None
+                    try:
+                        head = _rebuild_src(a[0]) if a else None
+                        if head is not None:
+                            src = (HDR + head + f'obj.{name}(*{tuple(a[1:])!r}, **{kw!r})\n')
+                    except Exception:  # noqa
+                        src = None
+                    raise CrashInChild(site, f'{site}(*{tuple(a[1:])!r}, **{kw!r}) on {type(a[0]).__name__ if a else "?"}: {died}', src)
+                return orig(*a, **kw)
+            finally:
+                _NET['depth'] -= 1
+        w._c16_net = True
+        setattr(owner, name, w)
+
+    wrap(BQM, 'add_linear_equality_constraint', 'BQM.add_linear_equality_constraint')
+    wrap(BQM, 'add_linear_inequality_constraint', 'BQM.add_linear_inequality_constraint')
+    wrap(DQM, 'add_linear_equality_constraint', 'DQM.add_linear_equality_constraint')
+    wrap(DQM, 'add_linear_inequality_constraint', 'DQM.add_linear_inequality_constraint')
+    wrap(dimod, 'cqm_to_bqm', 'cqm_to_bqm')
+
+
+def netted(ctx, phase, fn):
+    """run one generator phase; a call stopped by the safety net becomes a clean 'crash' finding and the phase ends"""
+    try:
+        fn()
+    except CrashInChild as e:
+        ctx.tick('crash isolated in a child: ' + e.site)
+        ctx.fail('crash', e.site, f'call made by {phase}', e.what, repro=e.repro)
+
+
 def make_bqm(kind, vt):
     """returns (object the call is made on, underlying BQM whose state is observed)"""
     other = 'SPIN' if vt == 'BINARY' else 'BINARY'
@@ -141,11 +293,19 @@ def eq_bqm_case(ctx, r, lines, checks):
            '    y = {v: ((2*t-1 if b.vartype.name == "BINARY" else F(t+1, 2)) if view else t) for v, t in x.items()}\n'
            '    want = F(lam) * (sum(F(a)*y[v] for v, a in terms) + F(C))**2\n'
            '    assert en(c1, x) - en(c0, x0) == want, (x, en(c1, x) - en(c0, x0), want)\n')
+    if kind in ('cy64', 'cy32', 'view64') and crashed(
+            ctx, 'cyBQM.add_linear_equality_constraint', ('no interactions before the call' if not before[1] else 'interactions before the call') + ', terms '
+            + ('in index order' if [v for v, _ in terms] == sorted((v for v, _ in terms), key=lambda v: (list(b.variables).index(v) if v in b.variables else len(b.variables))) else 'not in index order'),
+            f'{kind} {vt}: terms {terms!r}, lam {lam}, C {C} on a model with variables {list(b.variables)!r}', src,
+            lambda: (tgt.add_linear_equality_constraint(list(call_terms), conv(lam), conv(C)), coef(b), b.energies(np.zeros((1, b.num_variables), dtype=np.int8) + (1 if data_vt == 'BINARY' else -1), ) if b.num_variables else None)):
+        return
     try:
         with warnings.catch_warnings():
             warnings.simplefilter('ignore')
             tgt.add_linear_equality_constraint(iter(call_terms) if as_iter else call_terms, conv(lam), conv(C))
+        _NET['probed'] = False
     except Exception as e:  # the method has no error clause for well-typed input
+        _NET['probed'] = False
         ctx.fail('property', 'BQM.add_linear_equality_constraint', f'raises ({kind})', f'{type(e).__name__}: {e}', repro=src)
         return
     after = coef(b)
@@ -300,6 +460,9 @@ def eq_dqm_case(ctx, r, lines, checks, directed=None):
            '    assert got == want, (sm, got, want)\n')
     samples = dqm_all_samples(d)
     e0 = dqm_energies(d, samples)
+    if crashed(ctx, 'DQM.add_linear_equality_constraint', 'repeated cases' if len({(i, c) for i, c, _ in terms}) < len(terms) else 'distinct cases',
+               f'terms {call!r}, lam {lam}, C {C}', src, lambda: (d.add_linear_equality_constraint(list(call), float(lam), float(C)), dqm_energies(d, samples))):
+        return
     try:
         d.add_linear_equality_constraint(iter(call) if r.random() < .3 else call, float(lam), float(C))
         ok = True
@@ -432,6 +595,9 @@ def ineq_bqm_eval(ctx, r, lines, checks, vt, kind, terms, c, lb, ub, cross, lam,
         return lb <= sum(a * x[v] for v, a in terms) + c <= ub
     anyfeas = any(feas(dict(zip(vs, t))) for t in itertools.product(dom, repeat=len(vs)))
     conv = (lambda a: a) if kind == 'obj' else float
+    if kind != 'obj' and crashed(ctx, 'BQM.add_linear_inequality_constraint', f'{kind} model, cross_zero={cross}', f'{kind} {vt}: terms {terms!r}, lam {lam}, c {c}, lb {lb}, ub {ub}', src,
+                                 lambda: (b.add_linear_inequality_constraint(list(terms), conv(lam), label, constant=c, lb=lb, ub=ub, cross_zero=cross), coef(b))):
+        return
     try:
         with warnings.catch_warnings():
             warnings.simplefilter('ignore')
@@ -589,6 +755,9 @@ def ineq_dqm_eval(ctx, r, lines, checks, method, ncases, names, d, build, terms,
     allc = dqm_all_samples(d)
     e0 = dict(zip(allc, dqm_energies(d, allc)))
     anyfeas = any(lb <= val(t) <= ub for t in allc)
+    if crashed(ctx, 'DQM.add_linear_inequality_constraint', f'slack_method={method}, cross_zero={cross}', f'terms {call!r}, lam {lam}, c {cst}, lb {lb}, ub {ub}', src,
+               lambda: (d.add_linear_inequality_constraint(list(call), float(lam), label, constant=cst, lb=lb, ub=ub, slack_method=method, cross_zero=cross), dqm_state(d))):
+        return
     try:
         with warnings.catch_warnings():
             warnings.simplefilter('ignore')
@@ -640,6 +809,22 @@ def ineq_dqm_eval(ctx, r, lines, checks, method, ncases, names, d, build, terms,
                 if (m != 0) if f else (m < lam):
                     bad = True
                     ctx.fail('property', site, cls + ', non-negative biases', f'terms {call!r} c={cst} lb={lb} ub={ub} lam={lam} cross_zero=True: at {dict(zip(names, t))!r} (sum={tot}; in [lb, ub] or 0: {f}) the penalty minimised over slack is {m}',
+                             repro=src.replace('if lb <= val(s) <= ub else', 'if (lb <= val(s) <= ub or val(s) == c) else'), detail=dict(slack=repr(sl)))
+                    break
+        if cross and method in ('log2', 'linear') and len(full) <= 60000 and not bad and (not sl or not all(a >= 0 for _, _, a in terms)):
+            # round 8: the rest of the cross_zero surface against the DOCUMENTED domain ("adds zero to the domain of constraint": sum == 0 or lb <= sum + c <= ub).
+            # As coded the equality short-cut (tightened range 0) ignores cross_zero, and for negative sums the extra value ub_c accepts every sum in -S..0:
+            # both deviate (the D66g family, tests pin the coefficient ub_c); one known-finding entry per class, so anything ELSE in these classes is still a violation text to read
+            sub = 'equality short-cut' if not sl else 'negative biases'
+            en = dict(zip(full, dqm_energies(d, full)))
+            for t in allc:
+                m = min(en[t + u] for u in itertools.product(*[range(k) for k in sizes])) - e0[t]
+                tot = val(t) - cst
+                f = lb <= val(t) <= ub or tot == 0
+                ctx.tick(f'ineqdqm:cross:documented-domain ({sub})')
+                if (m != 0) if f else (m < lam):
+                    bad = True
+                    ctx.fail('property', site, cls + ', ' + sub, f'terms {call!r} c={cst} lb={lb} ub={ub} lam={lam} cross_zero=True: at {dict(zip(names, t))!r} (sum={tot}; in [lb, ub] or 0: {f}) the penalty minimised over slack is {m}',
                              repro=src.replace('if lb <= val(s) <= ub else', 'if (lb <= val(s) <= ub or val(s) == c) else'), detail=dict(slack=repr(sl)))
                     break
         if not sl and not svars and dqm_state(d) == st0:
@@ -853,6 +1038,11 @@ def cqm_case(ctx, r, lines, checks):
     # a constraint no assignment satisfies may be refused (ValueError) — "refuses only truly infeasible"
     ally = [dict(zip(names, t)) for t in itertools.product(*[dom(k) for k in kinds])]
     each_feasible = all(any(_one(y, c) for y in ally) for c in cons) if not bad_lb else True
+    def _probe():
+        bq, _ = dimod.cqm_to_bqm(build(), None if lam is None else float(lam))
+        coef(bq); bq.energies(np.ones((1, bq.num_variables), dtype=np.int8))
+    if crashed(ctx, 'cqm_to_bqm', 'linear or empty objective' if not any(True for _ in oquad) else 'quadratic objective', f'CQM of case `{line[:300]}`', src, _probe):
+        return
     try:
         with warnings.catch_warnings():
             warnings.simplefilter('ignore')
@@ -1068,7 +1258,7 @@ def option_cases(ctx, r):
         plan = plan_class([a for _, a in terms], c, lb, ub)
         vs = [v for v, _ in terms]
         samples = [dict(zip(vs, t)) for t in itertools.product((0, 1), repeat=n)]
-        how = r.choice(['unbalanced', 'unbalanced', 'badmethod', 'scalar-unbalanced', 'floats', 'fractional', 'inf'])
+        how = r.choice(['unbalanced', 'unbalanced', 'badmethod', 'scalar-unbalanced', 'short-unbalanced', 'floats', 'fractional', 'inf'])
         ctx.tick(f'option:{how}:{plan.split(":")[0]}')
         ctx.case(('option', how, repr(terms), c, lb, ub), nontrivial=plan.startswith(('slack', 'equality')))
         base = HDR + f'terms = {terms!r}\nc, lb, ub = {c}, {lb}, {ub}\nb = dimod.BinaryQuadraticModel("BINARY", dtype=object)\nfor v, _ in terms: b.add_variable(v)\n'
@@ -1105,6 +1295,17 @@ def option_cases(ctx, r):
             if exc != want or not untouched:
                 ctx.fail('property', site, 'penalization_method dispatch', f'terms {terms!r} c={c} lb={lb} ub={ub} ({how}; plan by definition: {plan}): raised {exc}, expected {want}; model untouched: {untouched}',
                          repro=base + f'try:\n    b.add_linear_inequality_constraint(terms, 1, "c", constant=c, lb=lb, ub=ub, penalization_method={"unbalanced" if how == "scalar-unbalanced" else "slak"!r})\n    e = None\nexcept Exception as ex:\n    e = type(ex).__name__\nassert e == {want!r} and b.offset == 0 and b.is_linear()\n')
+        elif how == 'short-unbalanced':
+            # "A list with two lagrange_multiplier are needed": a shorter list (or a set / generator) is refused -- and, like every refusal, leaves the model as it was
+            lam = r.choice([[], [2], (3,), [], [1]])
+            ret, exc, _w = call(lam=lam, penalization_method='unbalanced')
+            want_exc = {'skip': False, 'infeasible': True}.get(plan, True)
+            untouched = b.offset == 0 and b.is_linear() and all(b.get_linear(v) == 0 for v in vs) and list(b.variables) == vs
+            if (exc is not None) != want_exc or not untouched:
+                ctx.fail('property', site, "penalization_method='unbalanced', fewer than two multipliers", f'terms {terms!r} c={c} lb={lb} ub={ub} multipliers {lam!r} (plan by definition: {plan}): raised {exc}; model untouched: {untouched} '
+                         f'(linear {[b.get_linear(v) for v in vs]}, offset {b.offset})',
+                         repro=base + f'try:\n    b.add_linear_inequality_constraint(terms, {lam!r}, "c", constant=c, lb=lb, ub=ub, penalization_method="unbalanced")\n    e = None\nexcept Exception as ex:\n    e = type(ex).__name__\n'
+                               f'assert (e is not None) == {want_exc} and b.offset == 0 and b.is_linear() and all(b.get_linear(v) == 0 for v, _ in terms), (e, b)\n')
         elif how == 'floats':
             # integral floats are integers: same slack terms, same model, no warning
             b2 = dimod.BinaryQuadraticModel('BINARY', dtype=object)
@@ -1149,6 +1350,40 @@ def option_cases(ctx, r):
                          repro=base + 'try:\n    b.add_linear_inequality_constraint(terms, 1, "c", constant=c, lb=lb, ub=float("inf"))\n    e = None\nexcept Exception as ex:\n    e = type(ex).__name__\nassert e == "OverflowError" and b.offset == 0 and b.is_linear()\n')
 
 # ------------------------------------------------------------------------------------ log2 / log10 as computed by the code
+
+def log10_boundary_cases(ctx, r):
+    """`slack_method='log10'` at S = 10**k + d, k <= 18: the number of slack variables is the number of decimal digits of S.
+    Computed as `int(np.ceil(np.log10(S + 1)))` it is one short at S = 10**15 (log10(10**15 + 1) rounds to 15.0) and for
+    S = 10**k + d, k >= 16 (S + 1 is not even a float): the highest digit variable is missing, the slack reaches only
+    10**k - 1 < S, and the FEASIBLE assignment with sum == lb gets a positive penalty.  Judged on the returned slack terms in
+    exact integers (sound bound: the sum of the per-variable maxima); the over-coverage of the digit lists is D17 (known)."""
+    ds = (-2, -1, 0, 1, 2, 9, 37) if ctx.quick else tuple(range(-40, 41))
+    Ss = sorted({10 ** k + d for k in range(1, 19) for d in ds if 10 ** k + d >= 2})
+    float_wrong = []
+    for S in Ss:
+        if int(np.ceil(np.log10(S + 1))) != len(str(S)):
+            float_wrong.append(S)
+        dq = dimod.DiscreteQuadraticModel(); dq.add_variable(2, 'a'); dq.add_variable(2, 'b')
+        with warnings.catch_warnings():
+            warnings.simplefilter('ignore')
+            st = dq.add_linear_inequality_constraint([('a', 1, 2), ('b', 1, S + 5)], 1, 'c', lb=2, ub=S + 2, slack_method='log10')
+        per = {}
+        for v, _case, bias in st:
+            per.setdefault(v, []).append(int(bias))
+        reach = sum(max(x) for x in per.values())
+        k = len(str(S)) - 1
+        ctx.case(('bound:log10', S), nontrivial=True); ctx.tick('boundary:dqm-log10' + (':>=10**15' if S >= 10 ** 15 else ''))
+        if reach < S or len(per) < len(str(S)):
+            ctx.fail('property', 'DQM.add_linear_inequality_constraint', 'slack_method=log10, slack range 10**k + d, k >= 15',
+                     f'DQM.add_linear_inequality_constraint([("a", 1, 2), ("b", 1, {S + 5})], 1, "c", lb=2, ub={S + 2}, slack_method="log10") (S = 10**{k} + {S - 10 ** k}): {len(per)} slack variables for a '
+                     f'{len(str(S))}-digit range; the returned slack terms reach at most {reach} < S = {S}, so the feasible assignment a=1, b=0 (sum 2 = lb, needs slack {S}) cannot get penalty 0',
+                     repro=HDR + f'S = {S}\nd = dimod.DiscreteQuadraticModel(); d.add_variable(2, "a"); d.add_variable(2, "b")\nst = d.add_linear_inequality_constraint([("a", 1, 2), ("b", 1, S + 5)], 1, "c", lb=2, ub=S + 2, slack_method="log10")\n'
+                           'per = {}\nfor v, _, bias in st: per.setdefault(v, []).append(int(bias))\nassert sum(max(x) for x in per.values()) >= S and len(per) == len(str(S)), (len(per), sum(max(x) for x in per.values()) - S)\n')
+            break
+    ctx.extra['float_log10_digit_count'] = dict(checked=len(Ss), range='S = 10**k + d, k <= 18, d in ' + (str(list(ds)) if ctx.quick else '-40..40'),
+                                                float_differs_from_exact=[f'10**{len(str(s)) - 1}+{s - 10 ** (len(str(s)) - 1)}' for s in float_wrong][:12], n_differs=len(float_wrong))
+    ctx.notes.append(f'TEST (not a theorem): int(ceil(np.log10(S + 1))) != len(str(S)) for {len(float_wrong)} of the {len(Ss)} boundary values S = 10**k + d (first: {float_wrong[:3]}); the source uses the exact digit count')
+
 
 def float_log_test(ctx):
     top = ctx.scale(2 ** 13, 2 ** 20)
@@ -1222,23 +1457,28 @@ def run(ctx):
                 'object dtype, .spin/.binary views, cyDQM (all three slack methods) and cqm_to_bqm; a case = one call; the predicate is evaluated at every '
                 'sample x every slack assignment; non-trivial = the call added a penalty (not refused, not an empty term list / zero multiplier)')
     lines, checks = [], []
-    directed_known(ctx)
+    install_safety_net()
+    _NET['always'] = ctx.quick
+    netted(ctx, 'directed_known', lambda: directed_known(ctx))
     n = ctx.scale(260, 6000)
     for _ in range(n):
-        eq_bqm_case(ctx, r, lines, checks)
+        netted(ctx, 'eq_bqm_case', lambda: eq_bqm_case(ctx, r, lines, checks))
     for _ in range(ctx.scale(160, 4000)):
-        eq_dqm_case(ctx, r, lines, checks)
+        netted(ctx, 'eq_dqm_case', lambda: eq_dqm_case(ctx, r, lines, checks))
     for _ in range(ctx.scale(220, 5000)):
-        ineq_bqm_case(ctx, r, lines, checks)
-    ineq_bqm_sweep(ctx, r, lines, checks)
+        netted(ctx, 'ineq_bqm_case', lambda: ineq_bqm_case(ctx, r, lines, checks))
+    netted(ctx, 'ineq_bqm_sweep', lambda: ineq_bqm_sweep(ctx, r, lines, checks))
     for _ in range(ctx.scale(160, 4000)):
-        ineq_dqm_case(ctx, r, lines, checks)
-    ineq_dqm_sweep(ctx, r, lines, checks)
-    benc_cases(ctx, r, lines, checks)
-    slack_boundary_cases(ctx, r, lines, checks)
-    option_cases(ctx, r)
+        netted(ctx, 'ineq_dqm_case', lambda: ineq_dqm_case(ctx, r, lines, checks))
+    netted(ctx, 'ineq_dqm_sweep', lambda: ineq_dqm_sweep(ctx, r, lines, checks))
+    netted(ctx, 'benc_cases', lambda: benc_cases(ctx, r, lines, checks))
+    netted(ctx, 'slack_boundary_cases', lambda: slack_boundary_cases(ctx, r, lines, checks))
+    netted(ctx, 'option_cases', lambda: option_cases(ctx, r))
+    netted(ctx, 'log10_boundary_cases', lambda: log10_boundary_cases(ctx, r))
     for _ in range(ctx.scale(140, 3000)):
-        cqm_case(ctx, r, lines, checks)
+        netted(ctx, 'cqm_case', lambda: cqm_case(ctx, r, lines, checks))
+    if len(lines) != len(checks):    # a phase stopped by the safety net between the two appends
+        k = min(len(lines), len(checks)); del lines[k:]; del checks[k:]
     if not float_log_test(ctx):
         ctx.fail('property', 'np.log2 / np.log10 as used for the slack count', 'small S', 'float floor(log2 S) or ceil(log10(S+1)) differs from the exact integer value', repro=None)
     # slack lists of the model vs the closed forms, small S
